@@ -207,6 +207,18 @@ CHECKS = {
             'response of the shared render_basic equals that of a freshly constructed renderer.',
             'Trusted: the normalisation function norm() and ref/negotiate.py; non-tabular HTML is outside (O10).',
             'DESIGN.md section 5, C17'),
+    'C20': ('E1-product-enumerator',
+            'complete enumeration of error-text families x monitored-file lists x requests on the real failsafe '
+            'application; parser-based and differential-structure oracles',
+            'Real tracebacks (10 exception types x depths 1-3 x 6 message kinds, SyntaxError reports, chained '
+            'exceptions), every line-boundary prefix and suffix of them, concatenations, every string of length <=3 '
+            '(thorough 4) over a 12-symbol markup/template alphabet, fixed hostile strings and non-text inputs (None, '
+            'bytes, invalid UTF-8, numbers, lists) x 5 monitored-file lists x 6 requests; create_app must return, '
+            'every page is a 200 text/html whose tag skeleton (outside the error heading, whose two legitimate '
+            'shapes are checked separately) equals the neutral page, the text and file names appear verbatim after '
+            'parsing, and standard tracebacks have type and message outside the raw block.',
+            'Trusted: html.parser; the definition of "standard traceback"; lone surrogates excluded.',
+            'DESIGN.md section 5, C20'),
 }
 
 NOT_YET = 'check not built yet in this revision of /verif (planned: bounded exhaustive exploration, see DESIGN.md section 5)'
